@@ -28,19 +28,19 @@ var LibPkgs = []string{ModPath, ModPath + "/components", ModPath + "/cmd/scipipe
 
 type Prog struct {
 	funcTables map[*ssa.Global]map[string]*ssa.Function
-	Dir      string
-	Fset     *token.FileSet
-	Pkgs     []*packages.Package
-	SSA      *ssa.Program
-	SSAPkgs  map[string]*ssa.Package
-	AllFuncs map[*ssa.Function]bool
-	LibFuncs []*ssa.Function // every function (incl. closures, methods) whose source is in a library package
-	CHA      *callgraph.Graph
-	VTA      *callgraph.Graph
-	NoRet    map[*ssa.Function]bool
-	NPkgs    int
-	Ignored  []string
-	cgMode   string
+	Dir        string
+	Fset       *token.FileSet
+	Pkgs       []*packages.Package
+	SSA        *ssa.Program
+	SSAPkgs    map[string]*ssa.Package
+	AllFuncs   map[*ssa.Function]bool
+	LibFuncs   []*ssa.Function // every function (incl. closures, methods) whose source is in a library package
+	CHA        *callgraph.Graph
+	VTA        *callgraph.Graph
+	NoRet      map[*ssa.Function]bool
+	NPkgs      int
+	Ignored    []string
+	cgMode     string
 
 	constGlobals map[*ssa.Global]*ssa.Const
 }
